@@ -255,9 +255,9 @@ def obligations(tier, seed):
     # (inside quotes, after a parameter name, inside a range spec) that short free text cannot
     SK = {
         "parse_cookie[sansio]": ['k="{}"', "k={}; j=1"], "parse_cookie[environ]": ['k="{}"'],
-        "parse_options_header": ["a; k={}", 'a;k="{}"', "a; k*={}", "a; k*0={}"], "parse_dict_header": ['k="{}", j', "k*={}"],
+        "parse_options_header": ["a; k={}", 'a;k="{}"', "a; k*={}", "a; k*0={}", "a;{}=y"], "parse_dict_header": ['k="{}", j', "k*={}"],
         "parse_list_header": ['"{}", j'], "parse_set_header": ['"{}", J'],
-        "parse_accept_header[Accept]": ["a;q={}", "a; k={}"], "parse_accept_header[MIMEAccept]": ["a/b;q={}", "a/{}"],
+        "parse_accept_header[Accept]": ["a;q={}", "a; k={}", "a;{}=y"], "parse_accept_header[MIMEAccept]": ["a/b;q={}", "a/{}", "a/b;{}=y"],
         "parse_accept_header[LanguageAccept]": ["en;q={}", "en-{}"], "parse_accept_header[CharsetAccept]": ["utf-8;q={}"],
         "parse_cache_control_header": ["max-age={}", 'private="{}"'], "parse_csp_header": ["default-src {}"],
         "parse_etags": ['W/"{}"', '"{}", "b"'], "parse_if_range_header": ['W/"{}"'],
